@@ -603,3 +603,56 @@ contract('Solver.value_iteration_total_rewards', heap=SOLVER_HEAP,
                      use={4: [f"L_BW_nonneg(cls({nodeq('_i1 - 1')}), {nodeq('_i1 - 1')}.reward, lcontent({nodeq('_i1 - 1')}.next_states), {SL_}, snap[_i1 - 1])"]})},
          termination_unproved=True,
          props=['C02', 'C14', 'C05', 'C06', 'C13'])
+
+# ------------------------------------------------------------------ solve_reachability (C01, C04, C06): the composed reachability phase
+TLS = "transition_list"
+FS = "final_states"
+
+
+def isfinal(t):
+    return f"exists(f, 0, len({FS}), {FS}[f] == {t})"
+
+
+SR_REQ = VALID(SL_) + HEAPWF(SL_) + [
+    PROPER_S, f"len({SL_}) >= 1", "self.threshold > 0", "self.threshold < 1", "self.floor == 6",
+    f"len({TLS}) == len({SL_})", f"forall(k, 0, len({SL_}), {TLS}[k] == {SL_}[k].next_states)",          # the solver's nodes alias the caller's lists
+    f"len({FS}) > 0", f"forall(f, 0, len({FS}), 0 <= {FS}[f] and {FS}[f] < len({SL_}))",
+    f"forall(t, 0, len({SL_}), RP[{SL_}[t]] == (1 if {isfinal('t')} else 0))",
+    f"forall(t, 0, len({SL_}), len({SL_}[t].next_states) >= 1)",
+    # CR: any predicate closed under the rules 'finals can reach' / 'a predecessor of a state that can reach can reach'
+    f"forall(f, 0, len({FS}), CR[{FS}[f]])",
+    f"forall(u, 0, len({SL_}), forall(j, 0, len({SL_}[u].next_states), implies(CR[{SL_}[u].next_states[j][1]], CR[u])))",
+    # VR: any vector in [0,1] that is 1 on the finals and a fixed point of the Bellman operator on the non-final states that can reach
+    f"forall(t, 0, len({SL_}), 0 <= VR[{SL_}[t]] and VR[{SL_}[t]] <= 1)",
+    f"forall(f, 0, len({FS}), VR[{SL_}[{FS}[f]]] == 1)",
+    f"forall(t, 0, len({SL_}), implies(not {isfinal('t')} and CR[t], VR[{SL_}[t]] == BR(cls({SL_}[t]), lcontent({SL_}[t].next_states), {SL_}, VR)))"]
+SR_POST = [f"forall(t, 0, len({SL_}), implies({isfinal('t')}, RP[{SL_}[t]] == 1))",                               # finals exactly 1
+           f"forall(t, 0, len({SL_}), implies(not {isfinal('t')} and not CR[t], RP[{SL_}[t]] == 0))",              # no path: exactly 0
+           f"forall(t, 0, len({SL_}), 0 <= RP[{SL_}[t]] and RP[{SL_}[t]] <= VR[{SL_}[t]])",                       # never exceeds the true value
+           f"forall(t, 0, len({SL_}), implies(not {isfinal('t')}, abs(RP[{SL_}[t]] - BR(cls({SL_}[t]), lcontent({SL_}[t].next_states), {SL_}, RP)) <= self.threshold))",
+           f"forall(t, 0, len({SL_}), ERM[{SL_}[t]] == RP[{SL_}[t]])"]
+SRF_ = "states_reaching_final"
+IN_S = lambda t: f"exists(p, 0, len({SRF_}), {SRF_}[p] == {t})"
+contract('Solver.solve_reachability', heap=SOLVER_HEAP, opaque=('BR', 'MaxS', 'MinS', 'SumS', 'SumP', 'MaxR', 'MinR', 'ArgEqR'),
+         params={'self': REF('Solver'), 'transition_list': LIST(LREF(TRANS)), 'final_states': LIST(INT), 'prune_states': BOOL, 'VR': AR, 'CR': AB},
+         ghost_params={'VR': 'VR', 'CR': 'CR'}, result=TUP(LIST(OSTR), INT),
+         locals={'states_reaching_final': LIST(INT), 'n_iterations_reach': INT, 'reachability_strategies': LIST(OSTR)},
+         requires=SR_REQ,
+         ensures=SR_POST + [f"len(result[0]) == len({SL_})", f"forall(a, 0, len({SL_}), {reach_clause('result[0]', 'a')})", f"not (prune_states and RP[{SL_}[0]] == 0)"],
+         raises=dict(exc=['ValueError'], when=[], ensures=SR_POST + ["prune_states", f"RP[{SL_}[0]] == 0"]),
+         modifies={'reach_probability': [f"exists(p, 0, len({SL_}), {SL_}[p] == _o)"], 'expected_reach_min_rewards': 'all'},
+         after_call={
+             'reverse_dfs': dict(
+                 hints=[f"forall(t, 0, len({SL_}), forall(k, 0, len({SL_}[t].next_states), implies({IN_S(f'{SL_}[t].next_states[k][1]')} or {isfinal(f'{SL_}[t].next_states[k][1]')}, {IN_S('t')} or {isfinal('t')})))",
+                        f"forall(q, 0, len({SRF_}), RP[{SL_}[{SRF_}[q]]] == 0)",
+                        f"forall(q, 0, len({SRF_}), RP[{SL_}[{SRF_}[q]]] <= BR(cls({SL_}[{SRF_}[q]]), lcontent({SL_}[{SRF_}[q]].next_states), {SL_}, RP))"],
+                 use={2: [f"forall(q, 0, len({SRF_}), L_BR_unit(cls({SL_}[{SRF_}[q]]), lcontent({SL_}[{SRF_}[q]].next_states), {SL_}, RP))"]}),
+             'Solver.value_iteration_reachability': dict(
+                 hints=[f"forall(t, 0, len({SL_}), implies(not {isfinal('t')} and not {IN_S('t')}, RP[{SL_}[t]] == 0))",
+                        # a non-final state outside the search result has no successor inside result + finals (closure), so all its successors are 0
+                        f"forall(t, 0, len({SL_}), implies(not {isfinal('t')} and not {IN_S('t')}, forall(k, 0, len({SL_}[t].next_states), RP[{SL_}[{SL_}[t].next_states[k][1]]] == 0)))",
+                        f"forall(t, 0, len({SL_}), implies(not {isfinal('t')} and not {IN_S('t')}, BR(cls({SL_}[t]), lcontent({SL_}[t].next_states), {SL_}, RP) == 0))",
+                        SR_POST[3]],
+                 also_on_raise=True,
+                 use={2: [f"forall(t, 0, len({SL_}), L_BR_zero(cls({SL_}[t]), lcontent({SL_}[t].next_states), {SL_}, RP))"]})},
+         props=['C01', 'C04', 'C06', 'C13'])
